@@ -171,27 +171,30 @@ func (r *Router) handleHTTPRequest(ctx *Context) {
 		ctx.Set(CTXCurrentRouteName, route.name)
 		ctx.Set(CTXCurrentRoutePath, path)
 
-		// append main handler to last
-		handlers = append(route.handlers, route.handler)
+		// append main handler to last.
+		// NOTICE: always build the chain in a new slice. route.handlers is shared by
+		// all requests, an append() may write into its spare capacity.
+		handlers = combineHandlers(route.handlers, HandlersChain{route.handler})
 	} else if len(allowed) > 0 { // method not allowed
-		if len(r.noAllowed) == 0 {
-			r.noAllowed = HandlersChain{internal405Handler}
-		}
-
 		// add allowed methods to context
 		ctx.Set(CTXAllowedMethods, allowed)
-		handlers = r.noAllowed
-	} else { // not found route
-		if len(r.noRoute) == 0 {
-			r.noRoute = HandlersChain{internal404Handler}
-		}
 
+		// NOTICE: don't lazy set r.noAllowed at here, the router is shared by all requests.
+		handlers = r.noAllowed
+		if len(handlers) == 0 {
+			handlers = HandlersChain{internal405Handler}
+		}
+	} else { // not found route
 		handlers = r.noRoute
+		if len(handlers) == 0 {
+			handlers = HandlersChain{internal404Handler}
+		}
 	}
 
 	// has global middleware handlers
 	if len(r.handlers) > 0 {
-		handlers = append(r.handlers, handlers...)
+		// NOTICE: r.handlers is shared by all requests too, see above.
+		handlers = combineHandlers(r.handlers, handlers)
 	}
 
 	verifYield("dispatch.chain")
